@@ -378,6 +378,18 @@ namespace AIToolbox::POMDP {
     }
 
     template <MDP::IsModel M>
+    double SparseModel<M>::getObservationProbability(const Belief & b, const size_t o, const size_t a) const {
+        // P(o | b, a) = sum_s b(s) sum_s1 T(s,a,s1) O(s1,a,o)
+        double p = 0.0;
+        for ( size_t s = 0; s < this->getS(); ++s ) {
+            if ( b[s] == 0.0 ) continue;
+            for ( size_t s1 = 0; s1 < this->getS(); ++s1 )
+                p += b[s] * this->getTransitionProbability(s, a, s1) * observations_[a].coeff(s1, o);
+        }
+        return p;
+    }
+
+    template <MDP::IsModel M>
     const SparseMatrix2D & SparseModel<M>::getObservationFunction(const size_t a) const {
         return observations_[a];
     }
